@@ -380,6 +380,19 @@ Section SatCore.
     | r => r
     end.
 
+  (* theory::backtrack_analyze_and_backjump with cnfl = the given conflict (called by a theory from OUTSIDE propagation, e.g. the
+     executor / solver after swap_conflict): pop down to the highest level of the conflict's literals, report it (hook 3), at root
+     level hand it to new_clause (+ propagate), otherwise analyse, backjump, record, propagate.  Not an operation of [op]: the
+     theorems over histories do not cover it; it is part of the exact differential (probe theory of harness/h_sat.cpp). *)
+  Definition ext_conflict (s : state) (cnfl : list lit) : state * outcome :=
+    let bt := fold_left (fun m l => Nat.max m (nth (fst l) (level s) 0)) cnfl 0 in
+    let s1 := pop_until bt s in
+    let s2 := hook s1 3 cnfl in
+    if root_level s2 then
+      let '(s3, b) := new_clause s2 cnfl in
+      if b then propagate s3 else (s3, RFalse)
+    else propagate (analyze_backjump_record s2 cnfl).
+
   (* ---------------------------------------------------------------------------------------------- *)
   (* operation histories *)
   Inductive op :=
@@ -464,3 +477,43 @@ Definition p_step (fuel : nat) : pstate -> op -> pstate * outcome :=
   step (@isort lit) nt_propagate nt_check nt_id nt_id fuel.
 Definition p_pre : pstate -> op -> bool := @pre unit.
 Definition p_dead_after : op -> pstate -> outcome -> bool := @dead_after unit.
+
+(* the scripted probe theory of harness/h_sat.cpp: its state is the list of the theory clauses declared so far,
+   (kind, literals): kind 0 = enforced in propagate(p) (conflict when every literal is false), 1 = the same + unit propagation
+   recorded as a lemma (at most one per call), 2 = only looked at in check().  Deterministic in the declaration order. *)
+Definition pr_state := list (nat * list lit).
+Definition a_val (a : list lbool) (l : lit) : lbool :=
+  match nth (fst l) a LU with LT => if snd l then LT else LF | LF => if snd l then LF else LT | LU => LU end.
+Definition pr_all_false (a : list lbool) (c : list lit) : bool := forallb (fun l => lbool_eqb (a_val a l) LF) c.
+Definition pr_has (p : lit) (c : list lit) : bool := existsb (lit_eqb (lneg p)) c.
+Definition pr_unit (a : list lbool) (c : list lit) : option (list lit) :=
+  match filter (fun l => lbool_eqb (a_val a l) LU) c with
+  | [u] => if forallb (fun l => lit_eqb l u || lbool_eqb (a_val a l) LF) c then Some (u :: filter (fun l => negb (lit_eqb l u)) c) else None
+  | _ => None
+  end.
+Fixpoint pr_first_unit (a : list lbool) (p : lit) (ts : pr_state) : option (list lit) :=
+  match ts with
+  | [] => None
+  | (k, c) :: t =>
+    if Nat.eqb k 1 && pr_has p c then match pr_unit a c with Some l => Some l | None => pr_first_unit a p t end
+    else pr_first_unit a p t
+  end.
+Definition pr_propagate (ts : pr_state) (a : list lbool) (_ : nat) (p : lit) : pr_state * list (list lit) * option (list lit) :=
+  match find (fun kc => Nat.ltb (fst kc) 2 && pr_has p (snd kc) && pr_all_false a (snd kc)) ts with
+  | Some kc => (ts, [], Some (snd kc))
+  | None => match pr_first_unit a p ts with Some l => (ts, [l], None) | None => (ts, [], None) end
+  end.
+Definition pr_check (ts : pr_state) (a : list lbool) (_ : nat) : pr_state * list (list lit) * option (list lit) :=
+  match find (fun kc => pr_all_false a (snd kc)) ts with
+  | Some kc => (ts, [], Some (snd kc))
+  | None => (ts, [], None)
+  end.
+Definition pr_id (ts : pr_state) : pr_state := ts.
+Definition qstate := @state pr_state.
+Definition q_init : qstate := init [].
+Definition q_step (fuel : nat) : qstate -> op -> qstate * outcome := step (@isort lit) pr_propagate pr_check pr_id pr_id fuel.
+Definition q_pre : qstate -> op -> bool := @pre pr_state.
+Definition q_dead_after : op -> qstate -> outcome -> bool := @dead_after pr_state.
+Definition q_declare (s : qstate) (k : nat) (c : list lit) : qstate := set_thst s (thst s ++ [(k, c)]).
+Definition q_ext_conflict (fuel : nat) (s : qstate) (c : list lit) : qstate * outcome :=
+  ext_conflict (@isort lit) pr_propagate pr_check pr_id fuel (q_declare s 0 c) c.
